@@ -1,14 +1,17 @@
 #!/usr/bin/env python3
-"""usage: tools/keep_seed.py <ID> <name> <detected-by text>  — copies a confirmed sub-agent change into /verif/seeded/<name>/"""
+"""usage: tools/keep_seed.py <ID>[/<sub>] <name> <detected-by text>  — copies a confirmed sub-agent change into /verif/seeded/<name>/"""
 import json, os, shutil, sys
 pid, name, det = sys.argv[1], sys.argv[2], sys.argv[3]
-src = f"/tmp/wt/{pid}/SEED"
+sub = ""
+if "/" in pid:
+    pid, sub = pid.split("/", 1)
+src = f"/tmp/wt/{pid}/SEED" + (f"/{sub}" if sub else "")
 dst = f"/verif/seeded/{name}"
 os.makedirs(dst, exist_ok=True)
 shutil.copy(f"{src}/patch.diff", f"{dst}/patch.diff")
 shutil.copy(f"{src}/demo.diff", f"{dst}/demo.diff")
 meta = json.load(open(f"{src}/meta.json"))
-log = open(f"/tmp/cw/{pid}.log").read() if os.path.exists(f"/tmp/cw/{pid}.log") else ""
+log = open(f"/tmp/cw/{pid}{sub}.log").read() if os.path.exists(f"/tmp/cw/{pid}{sub}.log") else ""
 meta.update({
     "property": pid,
     "origin": "independent sub-agent given only the property text and a scratch worktree",
